@@ -541,6 +541,10 @@ def SEQ(n):
     return ('SEQ', n)
 
 
+def CONSTB(b):
+    return ('CONSTB', bool(b))
+
+
 def STR(v):
     return ('STR', v)
 
@@ -785,6 +789,8 @@ def _mutation_suspects(s, env):
             out |= _direct_refs(n, env)
         elif isinstance(n, (ast.Subscript, ast.Attribute)) and isinstance(n.ctx, (ast.Store, ast.Del)):
             b = _base_name(n)
+            if b and isinstance(n, ast.Subscript) and isinstance(n.value, ast.Name) and isinstance(env.get(b), Arr):
+                continue               # a[...] = v changes the data of an array, never its shape / ndim
             out |= {b} if b else {m.id for m in ast.walk(n) if isinstance(m, ast.Name)}
         elif isinstance(n, ast.AugAssign):
             b = _base_name(n.target)
@@ -1077,6 +1083,11 @@ class Exec:
             raise _Unsup(base.why)
         if isinstance(base, LList):
             return self.list_index(base, self.ev(node.slice, env))
+        if isinstance(base, Arr) and not is_poisoned(base) and isinstance(node.slice, ast.Tuple) \
+                and len(node.slice.elts) == 2 and isinstance(node.slice.elts[0], ast.Constant) \
+                and node.slice.elts[0].value is Ellipsis and _dotted(node.slice.elts[1]) in ('np.newaxis', 'numpy.newaxis'):
+            # a[..., np.newaxis]: a view with one more axis, of length 1, at the end
+            return Arr(base.name, PyTuple(list(base.shape.items) + [zint(1)]), base.ndim + 1)
         if isinstance(base, (PyTuple, Vec, Seq)):
             if isinstance(base, Vec) and is_poisoned(base):
                 raise _Unsup('array that an untranslated statement may have changed')
@@ -1183,6 +1194,12 @@ class Exec:
         head = d.split('.')[0]
         if head in env:
             raise _Unsup(f'call of {d}: the name {head!r} is a local value here')
+        if d in ('np.zeros', 'numpy.zeros', 'np.ones', 'numpy.ones', 'np.empty', 'numpy.empty') and len(node.args) == 1 \
+                and all(k.arg == 'dtype' for k in node.keywords) and self.spec.get('new_arrays'):
+            sh = self.ev(node.args[0], env)
+            if isinstance(sh, PyTuple) and all(isinstance(x, X) and x.ty == 'Z' for x in sh.items):
+                return Arr('a fresh array', PyTuple(list(sh.items)), len(sh.items))
+            raise _Unsup(f'{d} of a shape that is not a tuple of integers')
         if d in ('np.arange', 'numpy.arange') and self.index_var is not None and len(node.args) == 1 \
                 and all(k.arg == 'dtype' for k in node.keywords):
             _need(self.ev(node.args[0], env), 'Z', d)
@@ -1847,7 +1864,17 @@ class Exec:
         name, lf = self.spec['name'], self.spec['loop_focus']
         if lf['mode'] == 'before':
             return self.observe(env, f'line {s.lineno}: observation when the loop is reached')
-        if s.orelse or _has_exit(s.body) or not isinstance(s.target, ast.Name):
+        enum_target = None
+        if (isinstance(s.target, ast.Tuple) and len(s.target.elts) == 2 and all(isinstance(t, ast.Name) for t in s.target.elts)
+                and isinstance(s.iter, ast.Call) and _dotted(s.iter.func) in ('np.ndenumerate', 'numpy.ndenumerate')
+                and len(s.iter.args) == 1 and self.index_var is not None):
+            try:
+                it = self.ev(s.iter.args[0], env)
+            except _Unsup:
+                it = None
+            if isinstance(it, Arr) and it.ndim == 1 and not is_poisoned(it):
+                enum_target = (s.target.elts[0].id, s.target.elts[1].id)
+        if s.orelse or _has_exit(s.body) or not (isinstance(s.target, ast.Name) or enum_target):
             raise TranslationRefused(name, f'line {s.lineno}: the focused loop has an else block, a return/raise/'
                                            'break/continue, or a structured target')
         for nm, v in self.assumed_at_loop.items():
@@ -1857,7 +1884,12 @@ class Exec:
             for nm in _stored_names(t):
                 if nm not in self.assumed:
                     env2[nm] = Opaque(f'{nm} may hold the value of a previous iteration of the loop')
-        env2[s.target.id] = Opaque('the loop variable is not an integer')
+        if enum_target:
+            # np.ndenumerate of a 1-d array yields ((k,), a[k]) for k = 0, 1, ...: k is the generic index
+            env2[enum_target[0]] = PyTuple([self.index_var])
+            env2[enum_target[1]] = Opaque('an element of the enumerated array')
+        else:
+            env2[s.target.id] = Opaque('the loop variable is not an integer')
 
         def end(env_):
             return self.observe(env_, 'end of the loop body')
@@ -2370,6 +2402,8 @@ def _make_input(kind, base, namer, inputs):
         return NONE
     if k == 'STR':                       # the instance fixes this (string) argument
         return StrV(kind[1])
+    if k == 'CONSTB':                    # the instance fixes this boolean argument
+        return bconst(kind[1])
     if k == 'OPAQUE':
         return Opaque(f'parameter {base} is not an integer')
     if k == 'SLICEBOX':
@@ -3232,6 +3266,31 @@ SPECS_C01 = [
          fallback='if unitary then None else Some (fst F_shape * snd F_shape)'),
 ]
 
+# ---------------------------------------------------------------------- C12: lentil/zernike.py basis / compose bookkeeping
+_ZB_PARAMS = {'mask': ARR(2), 'modes': ARR(1), 'vectorize': CONSTB(False), 'normalize': OPAQUE_K, 'rho': OPAQUE_K,
+              'theta': OPAQUE_K}
+_ZB = dict(file=ZRN, func='zernike_basis', new_arrays=True, observe='basis', returns=['callargs', 'expr:basis.shape'])
+SPECS_C12 = [
+    dict(_ZB, name='basis_shape', params=_ZB_PARAMS, rtype=TZn(3),
+         doc='zernike_basis(mask, modes, vectorize=False) for a 1-d array of modes and a 2-d mask: the shape of the '
+             'returned cube, np.zeros(modes.shape + mask.shape)',
+         fallback="(modes_shape, fst mask_shape, snd mask_shape)"),
+    dict(_ZB, name='basis_shape_scalar_mode', params=dict(_ZB_PARAMS, modes=ARR(0)), rtype=TZn(3),
+         doc='the same for a scalar mode: modes[..., np.newaxis] makes it a one-element vector',
+         fallback="(1, fst mask_shape, snd mask_shape)"),
+    dict(_ZB, name='basis_vectorized', params=dict(_ZB_PARAMS, vectorize=CONSTB(True)), rtype=TZn(2),
+         doc='zernike_basis(mask, modes, vectorize=True): the arguments of the returned basis.reshape(basis.shape[0], -1) '
+             '(one row per mode; -1 = the flattened mask)',
+         fallback="(modes_shape, -1)"),
+    dict(name='compose_mode', file=ZRN, func='zernike_compose',
+         params={'mask': ARR(2), 'coeffs': ARR(1), 'normalize': OPAQUE_K, 'rho': OPAQUE_K, 'theta': OPAQUE_K},
+         new_arrays=True, index_var='k', loop_focus={'iter': 'np.ndenumerate(coeffs)', 'mode': 'body'},
+         observe_calls={'ZERN': 'zernike'}, observe='ZERN_0[1]', rtype=TZ,
+         doc='zernike_compose(mask, coeffs): in iteration k of the loop over np.ndenumerate(coeffs) (a 1-d array), the '
+             'Noll index handed to zernike(): coefficient number k multiplies mode k + 1',
+         fallback='k + 1'),
+]
+
 # ---------------------------------------------------------------------- C07: lentil/plane.py multiplication bookkeeping
 _TQP = TT(TZn(2), TZn(2))
 _MULSH = dict(file='lentil/plane.py', func='Plane.multiply',
@@ -3398,6 +3457,8 @@ SUITES = {
             'proofs': 'theories/Proofs/SpectrumOpSrcP.v', 'target': 'theories/Properties/C13Src.vo', 'props': 'C13Src'},
     'C01': {'specs': SPECS_C01, 'gen': 'theories/Gen/FourierSrc.v', 'imports': 'Lib.Base',
             'proofs': 'theories/Proofs/FourierSrcP.v', 'target': 'theories/Properties/C01Src.vo', 'props': 'C01Src'},
+    'C12': {'specs': SPECS_C12, 'gen': 'theories/Gen/ZernikeFitSrc.v', 'imports': 'Lib.Base',
+            'proofs': 'theories/Proofs/ZernikeFitSrcP.v', 'target': 'theories/Properties/C12Src.vo', 'props': 'C12Src'},
     'C07': {'specs': SPECS_C07, 'gen': 'theories/Gen/PlaneMulSrc.v', 'imports': 'Lib.Base',
             'proofs': 'theories/Proofs/PlaneMulSrcP.v', 'target': 'theories/Properties/C07Src.vo', 'props': 'C07Src'},
     'C03': {'specs': SPECS_C03, 'gen': 'theories/Gen/SegmentSrc.v', 'imports': 'Lib.Base',
@@ -4870,6 +4931,58 @@ PREF.update({'mul_pixelscale': lambda a, b: all(_dyadic(q) for q in a + b),
              'mul_pixelscale_right_none': lambda a: all(_dyadic(q) for q in a),
              'multiply_shape': lambda ps, ws, can: min(ps + ws) >= 1,
              'multiply_shape_scalar_plane': lambda ws, can: min(ws) >= 1})
+
+
+# ====================================================================== C12: zernike basis / compose bookkeeping
+MIRROR.update({'basis_shape': lambda ms, k: (k, ms[0], ms[1]), 'basis_shape_scalar_mode': lambda ms: (1, ms[0], ms[1]),
+               'basis_vectorized': lambda ms, k: (k, -1), 'compose_mode': lambda ms, n, k: k + 1})
+
+
+def _zmod():
+    return sys.modules.get('lentil.zernike') or __import__('importlib').import_module('lentil.zernike')
+
+
+def _drv_basis(scalar, vectorize):
+    def drv(L, ms, k=None):
+        import numpy as np
+        if not all(1 <= v <= 6 for v in ms) or (k is not None and not 1 <= k <= 5):
+            return SKIP
+        modes = 4 if scalar else list(range(1, k + 1))
+        b = _zmod().zernike_basis(np.ones(ms), modes, vectorize=vectorize)
+        return _ints(b.shape)
+    return drv
+
+
+def _drv_compose_mode(L, ms, n, k):
+    import numpy as np
+    if not all(1 <= v <= 6 for v in ms) or not (1 <= n <= 6 and 0 <= k < n):
+        return SKIP
+    z = _zmod()
+    rec, orig = [], z.zernike
+
+    def spy(mask, index, *a, **kw):
+        rec.append(int(index))
+        return orig(mask, index, *a, **kw)
+    z.zernike = spy
+    try:
+        z.zernike_compose(np.ones(ms), np.arange(1.0, n + 1))
+    finally:
+        z.zernike = orig
+    return rec[k] if len(rec) == n else SKIP
+
+
+DRIVER.update({'basis_shape': _drv_basis(False, False), 'basis_shape_scalar_mode': _drv_basis(True, False),
+               'basis_vectorized': _drv_basis(False, True), 'compose_mode': _drv_compose_mode})
+# the running code resolves the -1 of reshape: compare the row count and that the rest is the flattened mask
+PROJECT2['basis_vectorized'] = lambda want, args: (want[0], args[0][0] * args[0][1]) if want[1] == -1 else want
+SAMPLER.update({'basis_shape': lambda rng: ((_r(rng, 1, 6), _r(rng, 1, 6)), _r(rng, 1, 5)),
+                'basis_shape_scalar_mode': lambda rng: ((_r(rng, 1, 6), _r(rng, 1, 6)),),
+                'basis_vectorized': lambda rng: ((_r(rng, 1, 6), _r(rng, 1, 6)), _r(rng, 1, 5)),
+                'compose_mode': lambda rng: (lambda n: ((_r(rng, 1, 6), _r(rng, 1, 6)), n, rng.randint(0, n - 1)))(
+                    _r(rng, 1, 6))})
+PREF.update({'basis_shape': lambda ms, k: min(ms) >= 1 and k >= 1, 'basis_shape_scalar_mode': lambda ms: min(ms) >= 1,
+             'basis_vectorized': lambda ms, k: min(ms) >= 1 and k >= 1,
+             'compose_mode': lambda ms, n, k: min(ms) >= 1 and 0 <= k < n})
 
 
 # ====================================================================== the check of one layer (called from extra)
